@@ -11,7 +11,8 @@ Inductive fault :=
 | FDup (i : nat)                  (* the i-th output is listed again at the end *)
 | FSwap (i j : nat)               (* outputs i and j change places *)
 | FSubst (i sig : nat)            (* the i-th output is attributed to signals[sig] *)
-| FWiden (i : nat).               (* the i-th output is reported for a signal of the same name and type with one more bit *)
+| FWiden (i : nat)                (* the i-th output is reported for a signal of the same name and type with one more bit *)
+| FAddW (sig : nat).              (* an entry for a signal the test does not have (signals[sig] with one more bit) is appended, value 7 *)
 
 Record script := {
   sc_layout : list nat;              (* indices into the bound signal list, in answer order *)
@@ -60,6 +61,10 @@ Definition apply_fault (sigs : list signal) (f : fault) (outs : list out_entry) 
                   | Some o, Some sg => list_set outs i {| oe_sig := sg; oe_val := oe_val o |}
                   | _, _ => outs
                   end
+  | FAddW sg => match nth_error sigs sg with
+                | Some g => outs ++ [ {| oe_sig := {| sname := sname g; sbits := N.succ (sbits g); styp := styp g |}; oe_val := OVal 7 |} ]
+                | None => outs
+                end
   | FWiden i => match nth_error outs i with
                 | Some o => list_set outs i {| oe_sig := {| sname := sname (oe_sig o); sbits := N.succ (sbits (oe_sig o)); styp := styp (oe_sig o) |};
                                                oe_val := oe_val o |}
